@@ -148,8 +148,16 @@ def rule_a8_pairing(ctx):
     appends = []
     for n in walk_own(enc.node):
         if isinstance(n, ast.AugAssign) and norm(n.target) == 'substrate' and 'eoo' in norm(n.value):
-            g = [a for a in ancestors(n, enc.node) if isinstance(a, ast.If)]
-            appends.append((n, g[0].test if g else None))
+            # path condition inside the tag loop: every enclosing test with the arm the append sits in
+            conds = []
+            cur = n
+            for a in ancestors(n, enc.node):
+                if isinstance(a, (ast.For, ast.While)):
+                    break
+                if isinstance(a, ast.If):
+                    conds.append((a.test, any(cur is x for x in a.body)))
+                cur = a
+            appends.append((n, conds))
     if len(appends) < 2:
         raise AnalysisError('end-of-octets appends not found in encode()')
     from sa import intexpr
@@ -174,13 +182,22 @@ def rule_a8_pairing(ctx):
                 if t == 'self.supportIndefLenMode':
                     return bool(sup)
                 return None
+            free = sorted(set(x.id for n_, conds in appends for t_, pol in conds for x in ast.walk(t_) if isinstance(x, ast.Name)) - {arg, 'self'})
+            if len(free) > 4:
+                raise AnalysisError('A8 guards over too many atoms: %s' % free)
+            import itertools
             try:
                 h = bool(intexpr.ev(hcond, {param: dmo}, res))
-                es = [bool(intexpr.ev(g, {arg: dmo}, res)) if g is not None else True for n, g in appends]
+                for bits in itertools.product((False, True), repeat=len(free)):
+                    env = dict(zip(free, bits))
+                    env[arg] = dmo
+                    fired = [all(bool(intexpr.ev(t_, env, res)) == pol for t_, pol in conds) for n_, conds in appends]
+                    if (sum(fired) == 1) != h or sum(fired) > 1:
+                        bad.append('%s=%s%s: indefinite header %s, end-of-octets appended %d time(s)' % (
+                            arg, dmo, ''.join(', %s=%s' % kv for kv in env.items() if kv[0] != arg), h, sum(fired)))
+                        break
             except intexpr.NotPure as x:
                 raise AnalysisError('A8 guard not propositional: %s' % x)
-            if any(e != h for e in es):
-                bad.append('%s=%s: indefinite header %s, end-of-octets appended %s' % (arg, dmo, h, es))
         ctx.ob('A8.pair', c, 'end-of-octets appended <=> indefinite header written (tag levels above the base)', not bad,
                '; '.join(bad) if bad else 'header condition `%s` and append guard agree for supportIndefLenMode=%r' % (norm(hcond), sup),
                node=(c.module.relpath, c.node.lineno))
@@ -491,6 +508,11 @@ def rule_c13(ctx):
             continue
         defs = rd[r].get(v.right.id, set())
         rebuilt = [d for d in defs if d is not cfg.entry]
+        from sa.cfg import known_at, _literals
+        atoms = set(t_ for n_ in cfg.nodes if n_.kind in ('test', 'while') and n_.ast is not None
+                    for t_, p_, e_ in _literals(n_.ast.test)[1] if t_.endswith('superTags'))
+        if not rebuilt and any(known_at(cfg, r, a_, False, rd) for a_ in atoms):
+            continue        # nothing to replace on this path: the receiver has no tag
         if not rebuilt:
             ok = False
             det.append('format of the replaced tag is never carried over')
@@ -503,7 +525,8 @@ def rule_c13(ctx):
                 ok = False
                 det.append('rebuilt tag `%s` does not keep the replaced tag\'s format with the argument\'s class/number' % norm(val))
             deps = [(norm(b.ast.test), lab) for b, lab in cfg.control_deps(d) if b.kind == 'test']
-            if not any(t.endswith('superTags') and lab == 'true' for t, lab in deps):
+            if not any(t.endswith('superTags') and lab == 'true' for t, lab in deps) and \
+                    not any(known_at(cfg, d, a_, True, rd) for a_ in atoms):
                 ok = False
                 det.append('format carry-over is not conditional on the receiver having a tag')
     ctx.ob('C13.impl', f, 'result = receiver minus last + (arg class, replaced format, arg number)', ok, '; '.join(det) or 'ok')
@@ -560,9 +583,15 @@ def rule_c13(ctx):
                isinstance(s.value, ast.BinOp) and isinstance(s.value.op, ast.Add) and norm(s.value.right) == 'substrate'
                and 'header' in norm(s.value.left)]
         top = [s for s in lp.body if any(c in ast.walk(s) for c in ets)]
-        ok = len(ets) == 1 and len(pre) == 2 and len(top) == 1 and not isinstance(top[0], (ast.If, ast.For, ast.While)) \
+        ok = len(ets) == 1 and len(pre) >= 1 and len(top) == 1 and not isinstance(top[0], (ast.If, ast.For, ast.While)) \
             and norm(ets[0].args[0]) == norm(lp.target.elts[1])
-        det = 'encodeTag calls=%d (unconditional: %s), header prepended in %d arm(s)' % (len(ets), bool(top) and not isinstance(top[0], ast.If), len(pre))
+        if ok:
+            # every path from the identifier to the next iteration prepends the header (however the arms are arranged)
+            cfg = ctx.cfg(f)
+            tnode = cfg.node_of[top[0]]
+            ok = cfg.node_of[lp] not in cfg.reachable(tnode, avoid=[cfg.node_of[p_] for p_ in pre])
+        det = 'encodeTag calls=%d (unconditional: %s), header prepended in %d place(s), on every path: %s' % (
+            len(ets), bool(top) and not isinstance(top[0], ast.If), len(pre), ok)
     ctx.ob('C13.enc', f, 'exactly one identifier per super tag, each header prepended', ok, det)
     # ---- decoder: spec accepted only on tag equality / tag-map membership
     f = ctx.func('codec.ber.decoder.SingleItemDecoder.__call__')
